@@ -16,7 +16,6 @@ import logging
 import time
 from functools import lru_cache
 from collections import defaultdict, namedtuple
-from itertools import groupby
 from jwt import JWT, jwk_from_pem
 
 from requests import HTTPError
@@ -698,10 +697,12 @@ class AggregatedWorkflowRuns(base.AbstractGitHostObject):
     @property
     def state(self):
         self.remove_unwanted_workflows()
-        res = [list(v) for i, v in groupby(
-            self._workflow_runs,
-            lambda elem: elem['head_branch']
-        )]
+        # group the runs by branch, whatever their order in the list
+        # (itertools.groupby only groups consecutive elements)
+        runs_by_branch = {}
+        for elem in self._workflow_runs:
+            runs_by_branch.setdefault(elem['head_branch'], []).append(elem)
+        res = list(runs_by_branch.values())
 
         status = [
             self.branch_state(branch_check_suite)
